@@ -2,6 +2,7 @@ package keeper
 
 import (
 	"context"
+	"errors"
 
 	sdkmath "cosmossdk.io/math"
 	"github.com/cosmos/cosmos-sdk/telemetry"
@@ -308,7 +309,9 @@ func (s MsgServer) UnbondedOracle(c context.Context, msg *types.MsgUnbondedOracl
 	}
 	delegateAddr := oracle.GetDelegateAddress(s.moduleName)
 	validatorAddr := oracle.GetValidator()
-	if _, err = s.stakingKeeper.GetUnbondingDelegation(ctx, delegateAddr, validatorAddr); err != nil {
+	if _, err = s.stakingKeeper.GetUnbondingDelegation(ctx, delegateAddr, validatorAddr); err == nil {
+		return nil, types.ErrInvalid.Wrapf("exist unbonding delegation")
+	} else if !errors.Is(err, stakingtypes.ErrNoUnbondingDelegation) {
 		return nil, err
 	}
 	balances := s.bankKeeper.GetAllBalances(ctx, delegateAddr)
